@@ -140,6 +140,12 @@ class ModuleEnv:
                 self.roles[tgt] = "UNKNOWN:module-assign"       # logger = ..., etc.
                 if tgt == "logger":
                     self.roles[tgt] = "LOGGER"
+                else:
+                    try:                                         # a module-level constant table / literal
+                        ast.literal_eval(n.value)
+                        self.roles[tgt] = "CONST"
+                    except (ValueError, SyntaxError):
+                        pass
         elif isinstance(n, ast.If):
             # `if t.TYPE_CHECKING:` block: typing-only imports -> names exist only for annotations
             if dotted(n.test) in ("t.TYPE_CHECKING", "typing.TYPE_CHECKING", "TYPE_CHECKING"):
@@ -219,6 +225,9 @@ class FuncTranslator:
         canon = self.m.canonical(name)
         if canon is not None:
             return f"(EFun {c_str(canon)})"
+        if self.m.roles.get(name) == "CONST":
+            # a module-level literal (never re-assigned at module level: a second assignment overwrites the role)
+            return f"(EPrim \"modconst\" [{E_const(name)}] [])"
         raise Opaque(f"bare use of name {name}")
 
     # ---- expressions -----------------------------------------------------------------------------
@@ -257,6 +266,12 @@ class FuncTranslator:
         elts = node.elts if isinstance(node, ast.Tuple) else [node]
         out = []
         for el in elts:
+            if isinstance(el, ast.Call) and isinstance(el.func, ast.Name) and el.func.id == "type" \
+                    and not self.is_local("type") and self.m.canonical("type") is None and "type" not in self.m.roles \
+                    and len(el.args) == 1 and not el.keywords and isinstance(el.args[0], ast.Constant) \
+                    and type(el.args[0].value) is str:
+                out.append("str")           # type("") is str (written so where a parameter is called `str`)
+                continue
             d = dotted(el)
             if d is None:
                 raise Opaque("isinstance against a computed type")
@@ -290,6 +305,8 @@ class FuncTranslator:
                         return f"(EPrim \"exp\" [{E_const(d.split('.', 1)[1])}] [])"
                     if role == "MODULE:math" and d in ("math.e", "math.pi"):
                         return f"(EConst (KFloat {c_str(d)}))"
+                    if role == "CONST":
+                        return f"(EAttr {self.tr(e.value)} {c_str(e.attr)})"
                     if role is not None or self.m.canonical(head) is None:
                         raise Opaque(f"attribute of module-level name {d}")
             return f"(EAttr {self.tr(e.value)} {c_str(e.attr)})"
@@ -447,6 +464,15 @@ class FuncTranslator:
             if role is not None and role.startswith("FUN:") and d == head:
                 args, kws = self.args_of(c)
                 return f"(ECall (EFun {c_str(role[4:])}) {c_list(args)} {c_kw(kws)})"
+            if role == "CONST" and d != head and isinstance(f, ast.Attribute):
+                args, kws = self.args_of(c)
+                return f"(EMethod {self.tr(f.value)} {c_str(f.attr)} {c_list(args)} {c_kw(kws)})"
+            if role == "MODULE:re" and d in ("re.sub", "re.escape"):
+                # pure functions of the standard library over str arguments: an opaque deterministic str
+                args, kws = self.args_of(c)
+                if kws:
+                    raise Opaque(f"{d} with keywords")
+                return f"(EPrim \"pure\" {c_list([E_const(d)] + args)} [])"
             if role == "TYPING_ONLY" and d == head:
                 # imported under `if TYPE_CHECKING:` only: the name does not exist at run time
                 return "(EPrim \"nameerror\" [] [])"
@@ -635,10 +661,17 @@ def translate_module(menv: ModuleEnv, all_funcs: set):
 # facts about the coercing primitives (exact shapes; anything else -> Untranslatable)
 # ---------------------------------------------------------------------------------------------------
 
+def _norm(fn):
+    """the function without docstrings, comments, annotations, typing.cast, logging statements and `pass`
+    (vlib.py2v.normalize_func; local names are kept, the recognisers below leave them free)"""
+    from vlib import py2v
+    return py2v.normalize_func(fn, rename_locals=False)
+
+
 def _method(cls: ast.ClassDef, name):
     for n in cls.body:
         if isinstance(n, ast.FunctionDef) and n.name == name:
-            return n
+            return _norm(n)
     raise Untranslatable(f"Column.{name} not found")
 
 
@@ -790,6 +823,7 @@ def primitive_facts(repo):
     for nm in ("col", "lit"):
         if nm not in fdefs:
             raise Untranslatable(f"functions.{nm} not found")
+        fdefs[nm] = _norm(fdefs[nm])
     ctxt = ast.unparse(fdefs["col"])
     cp = fdefs["col"].args.args[0].arg
     if f"if isinstance({cp}, str):" in ctxt and "expression.to_column(" in ctxt and f"return Column({cp})" in ctxt:
@@ -804,6 +838,14 @@ def primitive_facts(repo):
     first = ast.unparse(b[0]) if b else ""
     if first == f"if isinstance({lp}, str):\n    return Column(expression.Literal.string({lp}))":
         facts["lit_str_is_literal"] = True
+    elif first == f"if isinstance({lp}, str):\n    return Column._lit({lp})":
+        # Column._lit(str): every branch for a str must build literals (Literal.string pieces / exp.convert)
+        lt = ast.unparse(_method(cls, "_lit"))
+        str_branches = [ln for ln in lt.splitlines() if "isinstance(value, str)" in ln]
+        if not lt.rstrip().endswith("return cls(exp.convert(value))") or any(
+                "'\\x00' in value" not in ln for ln in str_branches):
+            raise Untranslatable("Column._lit: unrecognised treatment of a str")
+        facts["lit_str_is_literal"] = True
     elif f"isinstance({lp}, str)" not in ltxt:
         facts["lit_str_is_literal"] = False      # falls to Column(value): parsed as a column reference
     else:
@@ -811,7 +853,7 @@ def primitive_facts(repo):
     # session.format_time / format_execution_time: a Column is replaced by value.expression.this (its NAME)
     with open(os.path.join(repo, "sqlframe/base/session.py")) as f:
         stree = ast.parse(f.read())
-    fmts = {n.name: ast.unparse(n) for n in ast.walk(stree)
+    fmts = {n.name: ast.unparse(_norm(n)) for n in ast.walk(stree)
             if isinstance(n, ast.FunctionDef) and n.name in ("format_time", "format_execution_time")}
     if set(fmts) != {"format_time", "format_execution_time"}:
         raise Untranslatable("session.format_time / format_execution_time not found")
